@@ -13,9 +13,11 @@
     genbankDefinitionParser    the final period (never an index out of range)
     genbankDBLinkPairParser    `db: id` (never an index / slice out of range: f459ebc)
     genbankContigParser        the region `[head-1, tail)`
-    quotedQualifierParser      the loop that takes the continuation indent out of a quoted value:
-                               `bytes.Index` re-implemented (`bytesIndex_spec`), the overlapping `copy`, the
-                               re-slice — step for step `stripCont`, for every fuel, never a panic
+    quotedQualifierParser      the loop that takes the continuation indent out of a quoted value (one pass
+                               since 2612fae): the store `token[w] = token[r]`, `bytes.HasSuffix(token[:w], p)`,
+                               `w -= len(prefix)` — round for round `stripLoop`; never a panic at any fuel, ended
+                               after `len(token)` rounds with the model's `stripCont`, for EVERY prefix (and, for a
+                               non-empty one, with the value of the loop it replaced: `quotedStrip_model`)
     INSDCTableParser, featureKeylineParser   the column arithmetic of the feature table
     parseReferenceInfo         one `a to b` range (b95613d)
     FlatFileSplit, Dictionary.Set, searchString (binary search = membership on a sorted list)
@@ -29,6 +31,7 @@ import Gts.Lemmas.Origin
 import Gts.Bridge.Origin
 import Gts.Model.GenBankParse
 import Gts.Model.GbSlice
+import Gts.Lemmas.GbStripOnePass
 namespace Gts.Bridge
 open Gts
 open Gts.Pars (Bytes Err)
@@ -293,79 +296,163 @@ theorem dictionarySet_eq (d : List (Bytes × Bytes)) (k v : Bytes) : Gen.diction
 
 /-! ### quotedQualifierParser: taking the continuation indent out of a quoted value -/
 
-/-- one pass of the loop body on a hit at `k`: the overlapping `copy(token[k+1:], token[k+len(p):])`
-moves the tail over the indent, `token[:k+1+n]` cuts the token to its new length — no slice, no copy
-is out of range, and the result is `token[:k+1] ++ token[k+1+m:]` -/
-theorem quotedStrip_step (t : Bytes) (k m : Nat) (h : k + 1 + m ≤ t.length) :
-    ∃ (tok' : Bytes) (n : Int),
-      Gen.goCopyAt t ((k : Int) + 1) (t.drop (k + 1 + m)) = some (tok', n) ∧
-      Gen.goSliceTo tok' ((k : Int) + 1 + n) = some (t.take (k + 1) ++ t.drop (k + 1 + m)) := by
-  have hoff : (k : Int) + 1 = ((k + 1 : Nat) : Int) := by omega
-  refine ⟨t.take (k + 1) ++ ((t.drop (k + 1 + m)).take (t.length - (k + 1)) ++
-      t.drop (k + 1 + (t.drop (k + 1 + m)).length)),
-    ((min (t.length - (k + 1)) (t.drop (k + 1 + m)).length : Nat) : Int), ?_, ?_⟩
-  · simp only [Gen.goCopyAt, hoff, Int.toNat_natCast]
+/-- one round of the loop body, the three checked operations: `token[r]` is inside the token, the
+store `token[w] = token[r]` at `w ≤ r` is inside it, and so is the slice `token[:w+1]` — which is
+`token[:w]` with the byte just moved behind it -/
+theorem quotedStrip_step (token : Bytes) (w r : Nat) (c : UInt8) (hw : w ≤ r)
+    (hc : token[r]? = some c) :
+    Gen.goIndex token (r : Int) = some c ∧
+    Gen.goStore token (w : Int) c = some (token.set w c) ∧
+    Gen.goSliceTo (token.set w c) ((w : Int) + 1) = some (token.take w ++ [c]) := by
+  have hr : r < token.length := (List.getElem?_eq_some_iff.mp hc).1
+  refine ⟨by rw [Gen.goIndex_nat, hc], ?_, ?_⟩
+  · simp only [Gen.goStore, Int.toNat_natCast]
     rw [if_pos (by omega)]
-  · simp only [hoff, List.length_drop]
-    have hmin : min (t.length - (k + 1)) (t.length - (k + 1 + m)) = t.length - (k + 1 + m) := by omega
-    rw [hmin]
-    have hcast : ((k + 1 : Nat) : Int) + ((t.length - (k + 1 + m) : Nat) : Int) =
-        ((k + 1 + (t.length - (k + 1 + m)) : Nat) : Int) := by omega
-    rw [hcast, Gen.goSliceTo_nat]
-    · have htake : (t.drop (k + 1 + m)).take (t.length - (k + 1)) = t.drop (k + 1 + m) :=
-        List.take_of_length_le (by simp only [List.length_drop]; omega)
-      rw [htake, ← List.append_assoc]
-      have hl : (t.take (k + 1) ++ t.drop (k + 1 + m)).length = k + 1 + (t.length - (k + 1 + m)) := by
-        simp only [List.length_append, List.length_take, List.length_drop]; omega
-      rw [← hl, List.take_left']
-      rfl
-    · simp only [List.length_append, List.length_take, List.length_drop]; omega
+  · have e : (w : Int) + 1 = ((w + 1 : Nat) : Int) := by omega
+    rw [e, Gen.goSliceTo_nat _ _ (by rw [List.length_set]; omega)]
+    congr 1
+    have hwl : w < token.length := by omega
+    rw [List.take_set, List.take_add_one, List.getElem?_eq_getElem hwl]
+    simp only [Option.toList_some]
+    rw [List.set_append_right _ _ (by simp; omega)]
+    simp [List.length_take, Nat.min_eq_left (Nat.le_of_lt hwl)]
 
-/-- THE LOOP, literally translated, is `stripCont` step for step: after `fuel` iterations (or when the
-pattern is gone) the token is `stripCont pre fuel t` and the index variable is the index of the
-pattern in it.  No `copy`, no slice expression ever fails. -/
-theorem quotedStripLoop_eq (pre : Bytes) : ∀ (fuel : Nat) (t : Bytes),
-    Gen.quotedStripLoop (10 :: pre) fuel t (Gen.bytesIndex t (10 :: pre)) =
-      .ok (stripCont pre fuel t, Gen.bytesIndex (stripCont pre fuel t) (10 :: pre))
-  | 0, t => rfl
-  | fuel + 1, t => by
-    rw [Gen.quotedStripLoop, stripCont]
-    cases hk : findSub (10 :: pre) t 0 with
-    | none =>
-      have hi : Gen.bytesIndex t (10 :: pre) = -1 := by rw [Gen.bytesIndex_findSub, hk]
-      rw [hi, if_neg (by omega)]
-    | some k =>
-      have hi : Gen.bytesIndex t (10 :: pre) = (k : Int) := by rw [Gen.bytesIndex_findSub, hk]
-      have hb := (Gen.findSub_bound (10 :: pre) t 0 k hk).2
-      simp only [Nat.sub_zero, List.length_cons] at hb
-      rw [hi, if_pos (by omega)]
-      have hfrom : Gen.goSliceFrom t ((k : Int) + (((10 :: pre).length : Nat) : Int)) =
-          some (t.drop (k + 1 + pre.length)) := by
-        have : (k : Int) + (((10 :: pre).length : Nat) : Int) = ((k + 1 + pre.length : Nat) : Int) := by
-          simp only [List.length_cons]; omega
-        rw [this]; exact Gen.goSliceFrom_nat t _ (by omega)
-      obtain ⟨tok', n, hcopy, hcut⟩ := quotedStrip_step t k pre.length (by omega)
-      simp only [hfrom, hcopy, hcut]
-      have ih := quotedStripLoop_eq pre fuel (t.take (k + 1) ++ t.drop (k + 1 + pre.length))
-      simp only [ih]
+/-- `bytes.HasSuffix(token[:w], p)` on `token[:w]` = `acc` reversed with the byte `c` behind it is the
+model's test `rp.isPrefixOf (c :: acc)` -/
+theorem quotedStrip_hasSuffix (p acc : Bytes) (c : UInt8) :
+    Gen.bytesHasSuffix (acc.reverse ++ [c]) p = p.reverse.isPrefixOf (c :: acc) := by
+  simp [Gen.bytesHasSuffix, List.isSuffixOf]
 
-/-- `quotedQualifierParser` behind `pars.EOL`: for EVERY fuel the translated statements yield
-`stripCont prefix fuel token`, the value the model computes with that fuel; never a panic -/
-theorem quotedStrip_eq (fuel : Nat) (pre tok : Bytes) :
-    Gen.quotedStrip fuel pre tok = .ok (stripCont pre fuel tok) := by
-  simp only [Gen.quotedStrip, List.singleton_append, quotedStripLoop_eq]
+/-- THE LOOP, literally translated, is the model's `stripLoop` round for round.  From a state
+`(token, w, r)` with `w ≤ r ≤ len(token)` whose `token[:w]` is `acc` reversed, at ANY fuel: no index,
+store or slice ever fails, the token keeps its length and `w` stays inside it; and when the fuel covers
+the `len(token) − r` bytes still to be read the loop has ended by its own condition (`r = len(token)`)
+and `token[:w]` is what `stripLoop` makes of `acc` and `token[r:]`. -/
+theorem quotedStripLoop_eq (pre : Bytes) : ∀ (fuel : Nat) (token acc : Bytes) (w r : Nat),
+    w ≤ r → r ≤ token.length → token.take w = acc.reverse →
+    ∃ (token' : Bytes) (w' r' : Nat),
+      Gen.quotedStripLoop pre (10 :: pre) fuel token (w : Int) (r : Int) =
+        .ok (token', (w' : Int), (r' : Int)) ∧
+      token'.length = token.length ∧ w' ≤ token.length ∧
+      (token.length - r ≤ fuel → r' = token.length ∧
+        token'.take w' = stripLoop (10 :: pre).reverse pre.length acc (token.drop r))
+  | 0, token, acc, w, r, hw, hr, hacc => by
+    refine ⟨token, w, r, rfl, rfl, by omega, fun hf => ?_⟩
+    have : r = token.length := by omega
+    subst this
+    refine ⟨rfl, ?_⟩
+    rw [List.drop_length, stripLoop, hacc]
+  | fuel + 1, token, acc, w, r, hw, hr, hacc => by
+    rw [Gen.quotedStripLoop]
+    by_cases hlt : r < token.length
+    · rw [if_pos (by omega)]
+      have hc : token[r]? = some token[r] := List.getElem?_eq_getElem hlt
+      obtain ⟨h1, h2, h3⟩ := quotedStrip_step token w r token[r] hw hc
+      simp only [h1, h2, h3]
+      rw [hacc, quotedStrip_hasSuffix]
+      have hlen : acc.length = w := by
+        have := congrArg List.length hacc
+        simp only [List.length_take, List.length_reverse] at this
+        omega
+      have hdrop : token.drop r = token[r] :: (token.set w token[r]).drop (r + 1) := by
+        rw [List.drop_set_of_lt (by omega), List.drop_eq_getElem_cons hlt]
+      have hr1 : ((r : Int) + 1) = ((r + 1 : Nat) : Int) := by omega
+      by_cases hp : (10 :: pre).reverse.isPrefixOf (token[r] :: acc) = true
+      · -- the end of `token[:w]` is the pattern: `w -= len(prefix)`
+        have hple : pre.length + 1 ≤ w + 1 := by
+          have := (List.isPrefixOf_iff_prefix.mp hp).length_le
+          simp only [List.length_reverse, List.length_cons] at this
+          omega
+        have hw1 : ((w : Int) + 1 - ((pre.length : Nat) : Int)) = ((w + 1 - pre.length : Nat) : Int) := by
+          omega
+        simp only [hp, if_true, hw1, hr1]
+        have htake : (token.set w token[r]).take (w + 1 - pre.length) =
+            ((token[r] :: acc).drop pre.length).reverse := by
+          have e : (token.set w token[r]).take (w + 1) = (token[r] :: acc).reverse := by
+            have := h3
+            rw [show (w : Int) + 1 = ((w + 1 : Nat) : Int) by omega,
+              Gen.goSliceTo_nat _ _ (by rw [List.length_set]; omega)] at this
+            rw [Option.some.inj this, hacc]; simp
+          have : (token.set w token[r]).take (w + 1 - pre.length) =
+              ((token.set w token[r]).take (w + 1)).take (w + 1 - pre.length) := by
+            rw [List.take_take]; congr 1; omega
+          rw [this, e, List.take_reverse]
+          congr 2
+          simp only [List.length_cons]
+          omega
+        obtain ⟨token', w', r', hloop, hl, hwl, hend⟩ :=
+          quotedStripLoop_eq pre fuel (token.set w token[r]) ((token[r] :: acc).drop pre.length)
+            (w + 1 - pre.length) (r + 1) (by omega) (by rw [List.length_set]; omega) htake
+        rw [List.length_set] at hl hwl hend
+        refine ⟨token', w', r', hloop, hl, hwl, fun hf => ?_⟩
+        obtain ⟨hr', ht⟩ := hend (by omega)
+        refine ⟨hr', ?_⟩
+        rw [ht, hdrop, stripLoop, if_pos hp]
+      · -- it is not: the byte stays
+        have hp' : ((10 :: pre).reverse.isPrefixOf (token[r] :: acc)) = false := by
+          cases h : (10 :: pre).reverse.isPrefixOf (token[r] :: acc) with
+          | false => rfl
+          | true => exact absurd h hp
+        have hw1 : ((w : Int) + 1) = ((w + 1 : Nat) : Int) := by omega
+        simp only [hp', Bool.false_eq_true, if_false, hw1, hr1]
+        have htake : (token.set w token[r]).take (w + 1) = (token[r] :: acc).reverse := by
+          have := h3
+          rw [hw1, Gen.goSliceTo_nat _ _ (by rw [List.length_set]; omega)] at this
+          rw [Option.some.inj this, hacc]; simp
+        obtain ⟨token', w', r', hloop, hl, hwl, hend⟩ :=
+          quotedStripLoop_eq pre fuel (token.set w token[r]) (token[r] :: acc) (w + 1) (r + 1)
+            (by omega) (by rw [List.length_set]; omega) htake
+        rw [List.length_set] at hl hwl hend
+        refine ⟨token', w', r', hloop, hl, hwl, fun hf => ?_⟩
+        obtain ⟨hr', ht⟩ := hend (by omega)
+        refine ⟨hr', ?_⟩
+        rw [ht, hdrop, stripLoop, if_neg hp]
+    · rw [if_neg (by omega)]
+      refine ⟨token, w, r, rfl, rfl, by omega, fun _ => ?_⟩
+      have : r = token.length := by omega
+      subst this
+      refine ⟨rfl, ?_⟩
+      rw [List.drop_length, stripLoop, hacc]
 
-/-- with a non-empty prefix every iteration removes at least one byte: the loop ends within
-`len(token)` iterations, more fuel changes nothing (with an EMPTY prefix — `INSDCTableParser` never
-builds one: the prefix is the depth of the table, at least the key — the Go loop would not end) -/
+/-- `quotedQualifierParser` behind `pars.EOL`, at EVERY fuel and for EVERY prefix: no index, store or
+slice expression of the translated statements ever fails (a fuel below `len(token)` stops the loop
+early, which the Go loop does not do: `quotedStrip_eq`) -/
+theorem quotedStrip_nopanic (fuel : Nat) (pre tok : Bytes) :
+    ∃ v, Gen.quotedStrip fuel pre tok = .ok v := by
+  obtain ⟨token', w', r', hloop, hl, hwl, _⟩ :=
+    quotedStripLoop_eq pre fuel tok [] 0 0 (Nat.le_refl _) (Nat.zero_le _) rfl
+  simp only [Gen.quotedStrip, List.singleton_append]
+  rw [show (0 : Int) = ((0 : Nat) : Int) from rfl, hloop]
+  simp only
+  rw [Gen.goSliceTo_nat _ _ (by omega)]
+  exact ⟨_, rfl⟩
+
+/-- `quotedQualifierParser` behind `pars.EOL`: for every fuel of at least `len(token)` — the number of
+rounds of the counted loop `for r := 0; r < len(token); r++` — the translated statements yield
+`stripCont prefix token`, the value the model's `quotedValue` returns; for EVERY prefix, the empty one
+included (where the loop before 2612fae did not end) -/
+theorem quotedStrip_eq (fuel : Nat) (pre tok : Bytes) (hf : tok.length ≤ fuel) :
+    Gen.quotedStrip fuel pre tok = .ok (stripCont pre tok) := by
+  obtain ⟨token', w', r', hloop, hl, hwl, hend⟩ :=
+    quotedStripLoop_eq pre fuel tok [] 0 0 (Nat.le_refl _) (Nat.zero_le _) rfl
+  obtain ⟨_, ht⟩ := hend (by omega)
+  simp only [Gen.quotedStrip, List.singleton_append]
+  rw [show (0 : Int) = ((0 : Nat) : Int) from rfl, hloop]
+  simp only
+  rw [Gen.goSliceTo_nat _ _ (by omega), ht]
+  rfl
+
+/-- THE LOOP BEFORE 2612fae (the old reading `stripContOld`; `Gts/Lemmas/GbStripOnePass.lean`): with a
+non-empty prefix every iteration removed at least one byte: the old loop ended within `len(token)`
+iterations, more fuel changed nothing (with an EMPTY prefix the old Go loop did not end) -/
 theorem stripCont_fuel_succ (pre : Bytes) (hne : pre ≠ []) : ∀ (f : Nat) (t : Bytes), t.length ≤ f →
-    stripCont pre (f + 1) t = stripCont pre f t
+    stripContOld pre (f + 1) t = stripContOld pre f t
   | 0, t, h => by
     have : t = [] := List.length_eq_zero_iff.mp (by omega)
     subst this
-    simp [stripCont, findSub]
+    simp [stripContOld, findSub]
   | f + 1, t, h => by
-    rw [stripCont, stripCont]
+    rw [stripContOld, stripContOld]
     cases hk : findSub (10 :: pre) t 0 with
     | none => rfl
     | some k =>
@@ -377,7 +464,7 @@ theorem stripCont_fuel_succ (pre : Bytes) (hne : pre ≠ []) : ∀ (f : Nat) (t 
         simp only [List.length_append, List.length_take, List.length_drop]; omega)
 
 theorem stripCont_fuel_stable (pre : Bytes) (hne : pre ≠ []) (t : Bytes) :
-    ∀ f, t.length ≤ f → stripCont pre f t = stripCont pre t.length t := by
+    ∀ f, t.length ≤ f → stripContOld pre f t = stripContOld pre t.length t := by
   intro f hf
   induction f with
   | zero =>
@@ -389,11 +476,13 @@ theorem stripCont_fuel_stable (pre : Bytes) (hne : pre ≠ []) (t : Bytes) :
     · have : t.length = f + 1 := by omega
       rw [this]
 
-/-- … so that for every fuel of at least `len(token)` the translated loop has ended and returns what
-`quotedValue` returns (`stripCont pre tok.length tok`) -/
+/-- … so that, with a non-empty prefix and for every fuel of at least `len(token)`, the translated
+one-pass loop of today returns what `quotedValue` returned BEFORE the repair
+(`stripContOld pre tok.length tok`): the value of a quoted qualifier has not changed
+(`stripCont_onepass_eq`) -/
 theorem quotedStrip_model (fuel : Nat) (pre tok : Bytes) (hne : pre ≠ []) (hf : tok.length ≤ fuel) :
-    Gen.quotedStrip fuel pre tok = .ok (stripCont pre tok.length tok) := by
-  rw [quotedStrip_eq, stripCont_fuel_stable pre hne tok fuel hf]
+    Gen.quotedStrip fuel pre tok = .ok (stripContOld pre tok.length tok) := by
+  rw [quotedStrip_eq fuel pre tok hf, stripCont_onepass_eq pre hne tok tok.length (Nat.le_refl _)]
 
 /-! ### searchString: the binary search is membership on a sorted list -/
 
